@@ -53,24 +53,24 @@ CLAIMED.update({
 })
 
 CLAIMED.update({
-    "C14": ("exploration", "3 C14", TECH + "simulated program-start clock (plan now=) and --tz-offset; independent resolver of the documented filter grammar vs the --summary filter lines, exit status, and the messages selected from a probe log placed 1 ms around the resolved bounds",
+    "C14": ("exploration", "3 C14", TECH + "simulated program-start clock (plan now=; later by stdin_delay once a slow path list on standard input has been read) and --tz-offset; independent resolver of the documented filter grammar vs the --summary filter lines, exit status, and the messages selected from a probe log placed 1 ms around the resolved bounds",
             "The relative forms are only decidable with a controlled clock; absolute forms ride along. Sampling of the grammar and near-misses."),
     "C11": ("exploration", "3 C11", TECH + "simulated world timeline sets message dates, file mtimes and gz/tar header mtimes; reference year-inference model (true dates) vs -u -d output, windows and cross-file merge",
             "Clock/mtime-controlled model oracle over simulated runs; containers, zones, block sizes sampled."),
-    "C15": ("exploration", "3 C15", TECH + "metamorphic over argument forms: directory as given vs the model's explicit sorted expansion vs stdin list vs split, on trees created in seed-chosen order, with tie-everywhere contents",
-            "Metamorphic comparison between simulated runs; jwalk's rayon pool is uncontrolled (stated)."),
+    "C15": ("exploration", "3 C15", TECH + "metamorphic over argument forms (directory as given vs the model's explicit sorted expansion vs respelled paths vs stdin list vs splits) plus an absolute oracle: the explicit list against a model of the merge (every named file attempted, an archive one source per member); trees created in seed-chosen order, tie-everywhere contents, 1..6 directories named, walk pool of 1 / 2 / all threads (RAYON_NUM_THREADS)",
+            "Metamorphic comparison between simulated runs and a merge model; jwalk's rayon pool runs real inside a step (stated), its size is a drawn knob."),
 })
 
 CLAIMED.update({
-    "C08": ("exploration", "3 C08", TECH + "generated accounting files of 12 documented layouts (template record + marker strings, time patterns incl. duplicates, null records, containers, block sizes, windows); reference model = stable sort of non-null records by embedded time; each printed line must carry its own record's markers and time",
+    "C08": ("exploration", "3 C08", TECH + "generated accounting files of 15 documented layouts (template record + marker strings, time patterns incl. duplicates, null records, containers, block sizes, windows, free modification times); reference model = stable sort of non-null records by embedded time; each printed line must be its own record's whole-line rendering; twin-file case: one numeric field of one record changed must change that record's line and no other",
             "Model oracle over simulated end-to-end runs; layouts x time patterns x containers sampled; known findings F-C08b / F-C08c attributed by signature."),
 })
 
 CLAIMED.update({
     "C09": ("exploration", "3 C09", TECH + "independent reader `journalctl --file -o export` (binary-safe export parsed): entry order, receive times and field sets vs s4's ten renderings split on a separator marker; windows on exact microsecond receive times; all containers",
-            "Oracle = independent reader over generated journals (sim/journalgen.py; used only when journalctl reads back exactly what was written) and the shipped ones; renderings, windows, zones, containers sampled."),
+            "Oracle = independent reader over generated journals (sim/journalgen.py, incl. XZ-compressed values; used only when journalctl reads back exactly what was written) and the shipped ones; renderings, windows, zones, containers sampled."),
     "C10": ("exploration", "3 C10", TECH + "independent dump with the evtx crate (/verif/aux) gives (enumeration index, record id, creation time); expected = stable time sort + inclusive window; record ids parsed from s4's separator-split output; bounds placed inside the out-of-order region",
-            "Oracle = independent dump over the shipped file and re-stamped copies of it (sim/evtxmut.py: any multiset of creation times, chunk CRCs recomputed); windows and containers sampled."),
+            "Oracle = independent dump over the shipped file and re-stamped copies of it (sim/evtxmut.py: any multiset of creation times, chunk order, stale chunk checksums, small logs, one torn record); windows and containers sampled."),
 })
 
 NOT_APPLICABLE = {
